@@ -108,6 +108,20 @@ def nested_combo_program(rng, w, corpus_enc):
 def check_program(ctx, prog, stats, kind):
     res, w, b = D.eval_dep_program(prog)
     byid = {d["id"]: d for d in prog["defs"]}
+    # the same program as the methods of one class body (the lookup-table, if-chain and counting dispatchers must all pass
+    # self on): outcomes must be those of the plain function
+    try:
+        bm = progs.BuiltClass(world_from(prog["spec"]), prog["defs"], utab=prog.get("utab"))
+    except Exception as e:  # noqa
+        ctx.violation(f"the program cannot be written as a class body: {type(e).__name__}: {str(e)[:120]}", dict(prog, calls=prog["calls"][:1]))
+        return
+    for call, r in zip(prog["calls"], res):
+        om, em = bm.call([dec_val(e, bm.w) for e in call["vals"]])
+        stats["evaluations"] += 1
+        stats["method_mode_calls"] += 1
+        if (D.impl_kind(om), em) != (r["impl"], r["entered"]):
+            ctx.violation(f"as a method of a class the call gives {(om, em)}, as a plain function {(r['impl_raw'], r['entered'])}", dict(prog, calls=[call], method_mode=True))
+            return
     for call, r in zip(prog["calls"], res):
         stats["evaluations"] += 1
         stats[kind] += 1
@@ -166,7 +180,7 @@ def run(ctx):
             "rule": "per round: 14 random types of the closure (depth <= 2) x 20+ corpus values for isinstance; one random type with an object fallback dispatched on every corpus value; Literal families of 2-6 methods (disjoint / overlapping / mixed value types / values equal across bool and int, shuffled value order, with or without fallback) dispatched on every pool value and four foreign values; a dispatch case is non-trivial (all involve a value type), distinct by (methods, tables, call)",
             "samples": samples, "isinstance_checks": stats["isinstance_checks"], "single_type_calls": stats["single_type_calls"], "nested_combination_calls": stats["nested_combination_calls"],
             "literal_family_calls": {m: stats["literal_family_calls_" + m] for m in ("disjoint", "overlap", "mixed", "boolint")},
-            "traces_validated_against_impl": stats["evaluations"]}
+            "calls_repeated_as_methods_of_a_class": stats["method_mode_calls"], "traces_validated_against_impl": stats["evaluations"]}
 
 
 def replay(ctx, payload):
